@@ -178,6 +178,23 @@ class SelectorWorld:
                     return 0
                 k = max(1, min(int(v.get("len", 1)), len(idx)))
                 return idx[:k]
+            if "$c06_thr" in v:
+                # a fraction of the farthest distance left after a brute-force run of the
+                # longest request of this trace from the same start
+                try:
+                    Xp = self.heap.pristine("X0")
+                    n = Xp.shape[0]
+                    reqs = [o["params"]["n_to_select"] for o in self.trace["ops"] if o["op"] in ("NEW", "SET") and "n_to_select" in o["params"]]
+                    N = max(resolve_n_to_select(self.resolve_param(r), n) for r in reqs)
+                    init = self.meta[objname]["params"].get("initialize", 0) if objname in self.meta else 0
+                    ref = FPSReference(Xp)
+                    ref.add(int(init) % n if isinstance(init, numbers.Integral) else 0)
+                    while len(ref.selected) < min(N, n):
+                        ref.add(int(np.argmax(ref.mind)))
+                    M = float(np.max(ref.mind))
+                    return float(v["$c06_thr"]) * M if M > 0 else None
+                except Exception:  # noqa: BLE001
+                    return None
             if "$unreached" in v:
                 m = self.meta[objname]
                 lo = m.get("twin_score_min")
@@ -791,10 +808,17 @@ class SelectorWorld:
         except Exception as e:  # noqa: BLE001
             V("public_state_missing", f"{type(e).__name__}: {e}")
             return
-        steps.append((ns, final_idx, final_tab))
+        stopped = any("Score threshold" in w[1] for w in rec.warnings)
+        if stopped:
+            # the state left by a threshold stop has a known length inconsistency (C01's
+            # finding); judge the steps the monitors saw and end this object's history
+            self.count("threshold_stop_in_c06")
+            m["retired_for_warm"] = True
+            m["retired_reason"] = "threshold_stop"
+        else:
+            steps.append((ns, final_idx, final_tab))
         n_from = Xp.shape[0]
         N = resolve_n_to_select(p.get("n_to_select"), n_from)
-        stopped = any("Score threshold" in w[1] for w in rec.warnings)
         if ns != N and not stopped:
             V("size_ne_requested", f"n_selected_={ns} but n_to_select implies {N}")
         tau = ref.tau
@@ -864,8 +888,9 @@ class SelectorWorld:
         if p.get("full_fraction") is None and not op.get("warm") and isinstance(ff, numbers.Real):
             self.count(f"calibration_outcome_{int(round(float(ff) * 128)):03d}")
             self.count("calibrations")
-        m["final"] = [int(v) % n_from for v in final_idx]
-        m.setdefault("finals", {})[m["fits"]] = (m["final"], op["X"])
+        if not stopped:
+            m["final"] = [int(v) % n_from for v in final_idx]
+            m.setdefault("finals", {})[m["fits"]] = (m["final"], op["X"])
 
     def c06_lanes(self):
         """Clock independence: lanes are identical objects/histories under different
@@ -898,7 +923,7 @@ class SelectorWorld:
                     self.violate(
                         "clock_dependent_selection",
                         m["cls"],
-                        f"identical histories under different clocks selected {a} vs {b} in fit #{fit_no}; "
+                        f"identical histories under different clocks / ambient RNG states selected {a} vs {b} in fit #{fit_no}; "
                         f"first difference at step {k} is not a tie | params={_short(m['resolved'])}",
                         first_step=bool(k == 0),
                     )
